@@ -1,4 +1,4 @@
-"""Shared plan for the ThreadPool properties (C07, C08)."""
+"""Shared plan for the ThreadPool properties (C07, C08, pool part of C15): sequentialised real ThreadPool.cpp + Thread.cpp under a symbolic schedule."""
 import os, itertools
 from vflib.check import Check, Query
 from vflib.core import VERIF
@@ -6,7 +6,10 @@ from checks.resource_common import PRIMS, RT, build_with_repo
 
 H = os.path.join(VERIF, 'harness', 'h_pool.cpp')
 SRCS = ['src/threading/ThreadPool.cpp', 'src/threading/Thread.cpp', 'src/threading/Runnable.cpp']
-OPN = {0: '-', 1: 'start(task)', 2: 'clear()', 3: 'stop()', 4: 'wait for all submitted tasks'}
+OPN = {0: '-', 1: 'start(task)', 2: 'clear()', 3: 'stop()', 4: 'wait for all submitted tasks', 5: 'update()'}
+# memory-safety instrumentation is reduced for these units (measured: pointer checks triple the solver time): array bounds and division only;
+# lifetime errors of tasks are visible through the harness' ghost state (canary, entered/exited/destroyed counters)
+POOL_FLAGS = ['--unwinding-assertions', '--drop-unused-functions', '--object-bits', '12', '--no-malloc-may-fail', '--no-standard-checks', '--bounds-check', '--div-by-zero-check']
 
 
 class PoolCheck(Check):
@@ -14,22 +17,30 @@ class PoolCheck(Check):
         return build_with_repo(self, q)
 
 
-def pool_query(name, ops, maxthreads, K, racy=True, timeout=1800, liveness=True):
+def pool_query(name, ops, maxthreads, K, racy=True, timeout=3000, liveness=True, prefix_only=False, harness_defs=(), expect_reach=('owner finished', 'all threads finished')):
     ops = list(ops) + [0] * (4 - len(ops))
     ntask = max(1, sum(1 for o in ops if o == 1))
     nthr = 1 + min(maxthreads, ntask)
-    q = Query(name, [H], ['OP%d=%d' % (i, o) for i, o in enumerate(ops)] + ['NTASK=%d' % ntask, 'MAXTHREADS=%d' % maxthreads, 'VF_LIST_CAP=3'], stl='model', rt=RT,
-              cbmc_defines=['VF_K=%d' % K, 'VF_NTHR=%d' % nthr, 'VF_PRESTART=1'] + (['VF_LIVENESS=1'] if liveness else []), unwind=5, unwindset=['vf_run.0:%d' % (K + 2)], timeout=timeout, mem_gb=14,
-              expect_reach=['owner finished', 'all threads finished'], ll2c_kw={'co': True, 'yield_prims': PRIMS, 'racy_yield': racy}, inline_all=True,
+    cdefs = ['VF_K=%d' % K, 'VF_NTHR=%d' % nthr, 'VF_PRESTART=1', 'VF_UNDEF_PTR_NULL=1'] + (['VF_LIVENESS=1'] if liveness else []) + (['VF_PREFIX_ONLY=1'] if prefix_only else [])
+    q = Query(name, [H], ['OP%d=%d' % (i, o) for i, o in enumerate(ops)] + ['NTASK=%d' % ntask, 'MAXTHREADS=%d' % maxthreads, 'VF_LIST_CAP=3', 'VF_SPLIT_ENTRY=1'] + list(harness_defs), stl='model', rt=RT,
+              cbmc_defines=cdefs, unwind=5, unwindset=['vf_run.0:%d' % (K + 2)], timeout=timeout, mem_gb=20,
+              expect_reach=list(expect_reach), ll2c_kw={'co': True, 'yield_prims': PRIMS, 'racy_yield': racy, 'step_prune': True, 'static_new': True}, inline_all=True,
               desc={'owner_program': [OPN[o] for o in ops if o] + ['stop()'], 'max_threads': maxthreads, 'tasks': ntask, 'symbolic': 'the schedule (%d thread choices)' % K,
-                    'racy_fields_are_scheduling_points': racy})
+                    'racy_fields_are_scheduling_points': racy, 'complete_runs': not prefix_only})
     q.repo_srcs = SRCS
     q.native_repo_srcs = SRCS
     q.native_shim = True
     q.native_defines = ['VF_PRESTART=1']
+    q.native_racy = {'src/threading/ThreadPool.cpp': ['m_isRunning'], 'src/threading/Thread.cpp': ['m_isFinished'], 'include/tulz/threading/Thread.h': ['m_isFinished']} if racy else {}
+    q.cbmc_flags = POOL_FLAGS
+    q.extra_cbmc = ['--external-sat-solver', 'kissat', '--slice-formula']   # measured on this unit (K=12): kissat 46 s, CaDiCaL 80 s, MiniSat 96 s
+    q.mem_weight = 6
+    q.bound_follows_property = True
     return q
 
 
-ASSUME = ['sequential consistency', 'context switches at synchronisation operations and (racy configuration) before every access to ThreadPool::m_isRunning and Thread::m_isFinished, the two fields accessed without synchronisation',
-          'model std::list (array, capacity 3), std::thread/mutex/condition_variable = scheduler primitives, system_clock::now() = arbitrary non-decreasing instants', 'non-expiring workers (expiry timeout -1), as quantified by the properties',
-          'spurious wake-ups disabled in liveness queries']
+ASSUME = ['sequential consistency', 'context switches at synchronisation operations and before every access to ThreadPool::m_isRunning and (while it is a plain bool) Thread::m_isFinished, the two fields accessed without a lock',
+          'model std::list (array, capacity 3), std::thread/mutex/condition_variable = scheduler primitives, system_clock::now() = arbitrary instants', 'non-expiring workers (expiry timeout -1), as quantified by the properties',
+          'spurious wake-ups disabled in liveness queries', 'one static buffer per `new` site (at most one live object per site, BOUND-asserted); a deleted object is marked dead, use after delete shows through the ghost state of the harness',
+          'an uninitialised pointer (`Runnable *runnable;`) is modelled as null', 'resume points are explored only from the scheduler step at which they can first be reached (static shortest-path bound, guarded by INTERNAL assertions)']
+STUBS = ['std::list', 'std::thread', 'std::mutex', 'std::condition_variable', 'system_clock', 'operator new/delete']
